@@ -67,11 +67,19 @@ def quotient_counter_rules(prog, rep, rid):
     for p in paths(prog, ctx, fa):
         if p.exit[0] != "return":
             if counter_events(p, E):
+                rep.bad(rid, f"{ctx}._add", "counter moved on a raising path",
+                        "_add has already counted the element on a path that then raises without storing it: elements_added stays one above the number of stored hashes",
+                        counter_events(p, E)[0].where())
                 okq = False
+                break
             continue
         d = [delta_of(e, E) for e in counter_events(p, E)]
-        if d != [C(1)]:
-            rep.bad(rid, f"{ctx}._add", f"counter deltas {[nshow(x) if x else '?' for x in d]}", "a successful _add does not count exactly one element", fa.where())
+        filled = any((e.kind == "call" and e.target is not None and e.target.src_name == "_shift_insert") or
+                     (e.kind == "setelem" and outer_field(e.cont) == "_filter") for e in p.events)
+        if d != [C(1)] or not filled:
+            what = f"counter deltas {[nshow(x) if x else '?' for x in d]}" + ("" if filled else ", no slot filled")
+            rep.bad(rid, f"{ctx}._add", what, "a returning path of _add does not fill exactly one slot and count exactly one element"
+                    if filled else "a path of _add counts an element and returns without storing it", fa.where())
             okq = False
             break
     if okq:
